@@ -239,10 +239,17 @@ func wrapperFunc(m dsl.Matcher) {
 	m.Match(`strings.IndexAny($s1, $s2) >= 0`, `strings.IndexAny($s1, $s2) != -1`).Suggest(`strings.ContainsAny($s1, $s2)`)
 	m.Match(`strings.IndexRune($s1, $s2) >= 0`, `strings.IndexRune($s1, $s2) != -1`).Suggest(`strings.ContainsRune($s1, $s2)`)
 
-	m.Match(`$i := strings.Index($s, $sep); $*_; $x, $y = $s[:$i], $s[$i+1:]`,
-		`$i := strings.Index($s, $sep); $*_; $x = $s[:$i]; $*_; $y = $s[$i+1:]`).
+	m.Match(`$i := strings.Index($s, $sep); $x, $y = $s[:$i], $s[$i+1:]`,
+		`$i := strings.Index($s, $sep); $x = $s[:$i]; $y = $s[$i+1:]`).
 		Where(m.GoVersion().GreaterEqThan("1.18")).
 		Suggest("$x, $y, _ = strings.Cut($s, $sep)")
+
+	// With other statements in between there is no edit that keeps them: report only.
+	m.Match(`$i := strings.Index($s, $sep); $_; $*_; $x, $y = $s[:$i], $s[$i+1:]`,
+		`$i := strings.Index($s, $sep); $_; $*_; $x = $s[:$i]; $*_; $y = $s[$i+1:]`,
+		`$i := strings.Index($s, $sep); $x = $s[:$i]; $_; $*_; $y = $s[$i+1:]`).
+		Where(m.GoVersion().GreaterEqThan("1.18")).
+		Report("suggestion: $x, $y, _ = strings.Cut($s, $sep)")
 
 	m.Match(
 		`if $i := strings.Index($s, $sep); $i != -1 { $*_; $x, $y = $s[:$i], $s[$i+1:]; $*_ }`,
